@@ -94,6 +94,8 @@ def check(case, env):
         except KeyError:
             got = "<T missing>"
         if got != model.T:
+            if "OTHER\", \"SWITCH" in json.dumps(got):
+                feat = "switch-trailing-bare-case"
             v = viol("trace-mismatch|" + feat, "trace differs from the reference semantics\nprogram: %s\nexpected T: %s\nvm       T: %s" % (
                 text, json.dumps(model.T), json.dumps(got)))
     return Result(nontrivial=nontrivial, labels=sorted(labs), violation=v)
